@@ -41,12 +41,33 @@ type c03Case struct {
 	// is being produced (at the n-th chunk boundary of the writer-backed producers); production then carries on after a
 	// short pause. No fault: whatever the call makes of the cancellation, only complete messages may be committed.
 	CtxEnd int `json:"context_cancelled_at_chunk,omitempty"`
+	// Nils: the batch handed to the call holds nil entries (the API tolerates them) - "front": before the first
+	// message, "between": between the messages, "all": both and at the end. The messages themselves are judged as always.
+	Nils string `json:"nil_entries_in_the_batch,omitempty"`
 }
 
 type c03Dry struct {
 	steps     int
 	stepVerbs []string
 	sent      []byte
+}
+
+// c03Batch: the slice handed to the call - the messages, with nil entries where the case says so.
+func c03Batch(msgs []*mail.Msg, nils string) []*mail.Msg {
+	if nils == "" {
+		return msgs
+	}
+	var b []*mail.Msg
+	for i, m := range msgs {
+		if i == 0 && (nils == "front" || nils == "all") || i > 0 && (nils == "between" || nils == "all") {
+			b = append(b, nil)
+		}
+		b = append(b, m)
+	}
+	if nils == "all" {
+		b = append(b, nil)
+	}
+	return b
 }
 
 func c03Msgs(c *c03Case, gate *int32, yield func()) ([]*mail.Msg, error) {
@@ -119,7 +140,10 @@ func runC03Case(r *ev.Run, c c03Case) c03Dry {
 		if n == 0 {
 			tc.FailWriteAt = c.WriteFail
 		}
-	}}, []mail.Option{mail.WithTLSPolicy(mail.NoTLS)}, msgs, c.Via, tmo, ctxHook)
+	}}, []mail.Option{mail.WithTLSPolicy(mail.NoTLS)}, c03Batch(msgs, c.Nils), c.Via, tmo, ctxHook)
+	if c.Nils != "" {
+		r.Count("calls_with_nil_entries_in_the_batch", 1)
+	}
 	atomic.StoreInt32(&gate, 0)
 	if sr.Panic != nil {
 		viol("panic:"+c.FailClass, fmt.Sprintf("client panicked: %v", sr.Panic), nil)
@@ -506,7 +530,7 @@ func c03Spec(r *ev.Run, stream string, idx, mi int) gen.MsgSpec {
 
 func runC03(r *ev.Run, rep *ev.ReplayDoc) ev.Summary {
 	sum := ev.Summary{
-		Rule: "batches of 1-3 seeded messages (C01 shapes, canonical CRLF; for every fourth batch the server sends all its replies as multi-line replies) sent through Send / DialAndSend / SendWithSMTPClient under single faults enumerated per batch: every content producer failing before/inside/after its data; the transport failing writes at offsets of every class inside each message's DATA phase (first byte, header block, every boundary line, part bodies, closing boundary, terminating dot) taken from a dry run; every reply class {4yz,5yz,drop} at every command position, plus 'queued, but the connection dies before the 250 leaves' and a reply that is neither 2yz nor negative (354 / 150 / 334) at end-of-data; plus fault pairs (producer x reply, transport x reply) for small batches; every transport fault, every producer fault inside or after its data and the 4yz/drop replies at DATA / end-of-data / RSET are also run with a retry (the undelivered *Msg values are sent again by a new call over a healthy connection: each must be committed once, complete). Producer faults are also run on messages an earlier fault-free call has already delivered (the failure of the later call still has to be reported on the Msg). Also fault-free messages whose bodies begin with a dot, calls whose context is cancelled by the caller while a message is being produced (no fault), and pairs of overlapping calls on one established connection (the second Send starts while the first call is inside its DATA phase). Oracle compares the reference server's commit log with the complete renderings. non-trivial = a fault was injected; distinct by (batch, fault)",
+		Rule: "batches of 1-3 seeded messages (C01 shapes, canonical CRLF; for every fourth batch the server sends all its replies as multi-line replies; about half of the batches are handed over with nil entries in front of, between or behind the messages) sent through Send / DialAndSend / SendWithSMTPClient under single faults enumerated per batch: every content producer failing before/inside/after its data; the transport failing writes at offsets of every class inside each message's DATA phase (first byte, header block, every boundary line, part bodies, closing boundary, terminating dot) taken from a dry run; every reply class {4yz,5yz,drop} at every command position, plus 'queued, but the connection dies before the 250 leaves' and a reply that is neither 2yz nor negative (354 / 150 / 334) at end-of-data; plus fault pairs (producer x reply, transport x reply) for small batches; every transport fault, every producer fault inside or after its data and the 4yz/drop replies at DATA / end-of-data / RSET are also run with a retry (the undelivered *Msg values are sent again by a new call over a healthy connection: each must be committed once, complete). Producer faults are also run on messages an earlier fault-free call has already delivered (the failure of the later call still has to be reported on the Msg). Also fault-free messages whose bodies begin with a dot, calls whose context is cancelled by the caller while a message is being produced (no fault), and pairs of overlapping calls on one established connection (the second Send starts while the first call is inside its DATA phase). Oracle compares the reference server's commit log with the complete renderings. non-trivial = a fault was injected; distinct by (batch, fault)",
 		Assumptions: []string{
 			"expected renderings are produced by the harness after the call with all producer faults disarmed (rendering is repeatable, C11)",
 			"what counts as committed is what the reference server received between 354 and CRLF.CRLF and acknowledged with 2yz",
@@ -537,6 +561,10 @@ func runC03(r *ev.Run, rep *ev.ReplayDoc) ev.Summary {
 	for b := 0; b < nb; b++ {
 		size := 1 + b%3
 		base := c03Case{Via: vias[b%3], WriteFail: -1, Multiline: b%4 == 1}
+		if b%3 == 2 || b%5 == 1 {
+			// the batch the caller hands over holds nil entries
+			base.Nils = []string{"front", "between", "all"}[(b/2)%3]
+		}
 		for mi := 0; mi < size; mi++ {
 			base.Specs = append(base.Specs, c03Spec(r, "c03", b, mi))
 		}
